@@ -66,7 +66,7 @@ def gen(rng, cls, nmax=3, **kw):
 
 
 BASE_OUT = ["volume", "Mdiff", "Mconv", "Mup", "Mupalt", "Msrc", "Rsrc", "Mbc", "Rbc", "ghost", "divu",
-            "linmean", "upmean", "grad"]
+            "linmean", "upmean", "grad", "tvdnamed"]
 
 
 def combo(cfg, key1, key2, lam, mu):
